@@ -109,7 +109,7 @@ def repo_clean():
 def run_scratch(ids, checks=None):
     """Like run(), but the patch is applied to a scratch worktree and the checks build from it (VERIF_REPO);
     for interim testing while something else needs /repo untouched.  Results are printed, not recorded."""
-    wt = "/tmp/seeded-run-wt"
+    wt = "/tmp/seeded-run-wt-%d" % os.getpid()
     head = sh(["git", "-C", REPO, "rev-parse", "HEAD"])[1].strip()
     for i in ids:
         d = os.path.join(SEEDED, i)
@@ -141,17 +141,19 @@ def run_scratch(ids, checks=None):
     sh(["git", "-C", VERIF, "checkout", "--", "evidence"])
 
 
-def run_benign(ids):
+def run_benign(ids, only=None):
     """Behaviour-preserving changes: every check must stay silent (exit 0).  Scratch worktree + VERIF_REPO."""
-    wt = "/tmp/seeded-run-wt"
+    wt = "/tmp/seeded-run-wt-%d" % os.getpid()
     head = sh(["git", "-C", REPO, "rev-parse", "HEAD"])[1].strip()
-    allp = ["C03", "C04", "C05", "C08", "C12", "C17", "C18", "C19"]
+    allp = only or ["C03", "C04", "C05", "C08", "C12", "C17", "C18", "C19"]
     for i in ids:
         d = os.path.join(SEEDED, i)
         sh(["git", "-C", REPO, "worktree", "remove", "--force", wt])
         shutil.rmtree(wt, ignore_errors=True)
         sh(["git", "-C", REPO, "worktree", "add", "--detach", wt, head])
         res = {}
+        if only and os.path.exists(os.path.join(d, "result.json")):
+            res = json.load(open(os.path.join(d, "result.json"))).get("benign_checks", {})
         try:
             rc, out = sh(["git", "apply", os.path.join(d, "patch.diff")], cwd=wt)
             if rc != 0:
@@ -291,7 +293,11 @@ if __name__ == "__main__":
                 k += 1
         run_scratch(ids, checks)
     elif a[0] == "benign":
-        run_benign(a[1:])
+        if "--checks" in a:
+            k = a.index("--checks")
+            run_benign(a[1:k] + a[k + 2:], a[k + 1].split(","))
+        else:
+            run_benign(a[1:])
     elif a[0] == "runall":
         for d in sorted(glob.glob(os.path.join(SEEDED, "*"))):
             if os.path.exists(os.path.join(d, "meta.json")):
